@@ -47,8 +47,14 @@ BOUNDS = {
 }
 ILL = {"bool": ["yes", "2", ""], "float64": ["abc", "1,5", ""]}
 ILL_INT = ["abc", "1.5", "", " 1"]
-STRINGS = ["héllo wörld ✓", "a b&c=d/e?f#g%h+i;j", ""]
+# header values travel through an HTTP parser on a real connection, which strips optional
+# white space around the value: in-process delivery must not send what the wire cannot carry
+ILL_INT_HEADER = ["abc", "1.5", "", "1 x"]
+STRINGS = ["héllo wörld ✓", "a b&c=d;e+f", "a b&c=d/e?f#g%h+i;j", ""]
 HEADER_STRINGS = ["a b&c=d/e?f#g%h+i;j", "café", ""]
+# characters Go's net/url leaves unescaped in a path (encodePath): a path parameter whose
+# percent-encoding is the canonical one leaves URL.RawPath empty
+PATH_SAFE = "$&+,:;=@"
 
 
 # ------------------------------------------------------------------ project preparation
@@ -83,6 +89,8 @@ def clean_project(p, mode="clean"):
         if c["route"].endswith("/"):
             c["route"] = c["route"][:-1]
         for m in c["methods"]:
+            if m["verb"] == "DELETE" and any(x["loc"] == "form" for x in m["params"]) and mode != "deleteform":
+                m["verb"] = "POST"     # a form body on DELETE is its own (known) class, see plan()
             r = collapse(m["route"])
             if not r.startswith("/"):
                 r = "/" + r
@@ -130,10 +138,14 @@ def build_request(verb, tmpl, params, values, body="valid"):
     for prm in params:
         if prm["ctx"] or prm["loc"] != "path":
             continue
-        v = values.get(prm["name"])
-        q = urllib.parse.quote(v if v is not None else "", safe="")
-        if q != (v or ""):
-            enc_path = True
+        v = values.get(prm["name"]) or ""
+        q = urllib.parse.quote(v, safe=PATH_SAFE)
+        if q != v:
+            enc_path = "canonical"
+        if "/" in v:
+            # an encoded slash makes the escaped form differ from Go's canonical one: RawPath is set
+            q = urllib.parse.quote(v, safe="")
+            enc_path = "rawpath"
         path = path.replace("{" + prm["name"] + "}", q)
     query, headers, form = [], [], None
     bodyv = None
@@ -214,7 +226,7 @@ def route_requests(p, c, m):
         elif t in ILL:
             vals = [("ill", x) for x in ILL[t]]
         else:
-            vals = [("ill", x) for x in ILL_INT]
+            vals = [("ill", x) for x in (ILL_INT_HEADER if prm["loc"] == "header" else ILL_INT)]
         vals += [("bound", x) for x in BOUNDS.get(t, [])]
         if t == "bool":
             vals += [("bound", "TRUE"), ("bound", "0"), ("bound", "t")]
@@ -315,33 +327,42 @@ def coq_evaluate(cases, tag="cases"):
 # ------------------------------------------------------------------ known findings
 
 def deviation_class(case):
-    """Machine-checkable class of a diverging case; compared with the `match` of known findings."""
+    """Machine-checkable classes a diverging case belongs to; compared with `match.kind` of the
+    known findings.  A class is a property of the project/request, never of the outcome,
+    except for the registration panic (which is a property of the whole router)."""
     tags, rq = case["tags"], case["request"]
-    cos = case["outcomes"]
     cls = []
     tc = case["template_class"]
     if tc != "clean":
         cls.append(tc + "-template")
-    if rq.get("encoded_path"):
+    for e in ENGINES:
+        body = case["outcomes"][e]["body"]
+        if body.startswith("<panic> registration:") and "must begin with '/'" in body \
+                and "no-leading-slash" in case["project_template_classes"]:
+            cls.append("no-leading-slash-template")
+    if rq.get("encoded_path") == "canonical":
         cls.append("percent-encoded-path-param")
+    if rq.get("encoded_path") == "rawpath":
+        cls.append("noncanonical-path-escape")
     if tags.get("value_loc") == "header" and tags.get("value") == "":
         cls.append("empty-header-value")
-    if tags.get("value_loc") == "header" and any(ord(ch) > 126 for ch in tags.get("value", "")):
-        cls.append("non-ascii-header-value")
-    if tags.get("value_type") == "float64" and tags.get("value") in ("NaN",):
-        cls.append("nan-float-param")
-    return cls
+    if rq["method"] in ("DELETE", "GET") and rq.get("form") is not None:
+        cls.append("form-on-bodyless-verb")
+    return sorted(set(cls))
 
 
 def match_known(known, case):
+    """A diverging case is explained by the known findings whose class it belongs to when the
+    deviating engines are among the engines those findings name."""
     classes = deviation_class(case)
-    dev = set(case["deviating"])
-    for f in known:
-        m = f.get("match", {})
-        if m.get("kind") in classes and dev <= set(m.get("engines", ENGINES)):
-            if "label_prefix" in m and not case["label"].startswith(m["label_prefix"]):
-                continue
-            return f
+    hits = [f for f in known if f.get("match", {}).get("kind") in classes]
+    if not hits:
+        return None
+    allowed = set()
+    for f in hits:
+        allowed |= set(f["match"].get("engines", ENGINES))
+    if set(case["deviating"]) <= allowed:
+        return hits[0]
     return None
 
 
@@ -355,9 +376,23 @@ def plan(rng, tier, nproj):
     # deliberate instances of the known-divergent template classes
     projects.append(clean_project(P.gen_project(rng, opts), "doubled"))
     projects.append(clean_project(P.gen_project(rng, opts), "noslash"))
-    if tier != "quick":
-        projects.append(clean_project(P.gen_project(rng, opts), "tripled"))
+    projects.append(clean_project(P.gen_project(rng, opts), "tripled"))
+    projects.append(clean_project(DELETE_FORM_PROJECT, "deleteform"))
     return projects
+
+
+DELETE_FORM_PROJECT = {
+    "config": {"schemes": ["sec1"], "default_security": None, "enforce": False, "engine": "gin", "title": "API",
+               "version": "1.2.3", "base_url": "https://api.example.com"},
+    "types": ["Item"],
+    "controllers": [{"name": "FCtl0", "pkg": "ctl", "tag": "T", "route": "/f", "security": [], "descr": "",
+                     "methods": [{"name": "M0Del", "verb": "DELETE", "route": "/x", "hidden": False,
+                                  "deprecated": False, "security": [], "ret": "string", "errtype": "error",
+                                  "response": None, "errors": [], "descr": "", "file": 0,
+                                  "params": [{"name": "q0", "ctx": False, "loc": "form", "alias": None,
+                                              "type": "string", "pointer": False, "validator": None,
+                                              "slice": False}]}]}],
+}
 
 
 def run_projects(prop, projects, only=None):
@@ -365,6 +400,7 @@ def run_projects(prop, projects, only=None):
     h = servers.build_servers(prop, projects)
     cases, reqs = [], []
     for k, p in enumerate(projects):
+        ptc = sorted(set(template_class(c["route"], m["route"]) for c in p["controllers"] for m in c["methods"]))
         for c in p["controllers"]:
             for m in c["methods"]:
                 for (label, tags, rq, script) in route_requests(p, c, m):
@@ -373,6 +409,7 @@ def run_projects(prop, projects, only=None):
                     case = {"project": k, "controller": c["name"], "method": m["name"], "label": label,
                             "tags": tags, "request": rq, "script": script,
                             "template_class": template_class(c["route"], m["route"]),
+                            "project_template_classes": ptc,
                             "template": c["route"] + m["route"]}
                     cases.append(case)
                     for e in ENGINES:
@@ -413,6 +450,8 @@ def main():
         build_coq()
     proof_coverage(PROP, res)
     known = known_for(PROP)
+    if os.environ.get("VERIF_KNOWN_EXTRA"):     # development: proposed entries not yet in known_findings.json
+        known += [f for f in json.load(open(os.environ["VERIF_KNOWN_EXTRA"])) if f.get("property") == PROP]
     only = None
     if a.replay:
         rp = json.load(open(a.replay))
@@ -425,7 +464,7 @@ def main():
             projects += json.load(open(corpus_file))
         projects += plan(rng, a.tier, 6 if a.tier == "quick" else 40)
     cases, timings = [], []
-    BATCH = 8 if a.tier == "quick" else 12
+    BATCH = 10 if a.tier == "quick" else 12
     for lo in range(0, len(projects), BATCH):
         h, cs = run_projects(PROP, projects[lo:lo + BATCH], only)
         for c in cs:
